@@ -5,7 +5,7 @@
 ;;   R <name> <lambda-id>    S <name> <lambda-id> <e>    C <t> <a> <b>    Q <n> <e>*    A <n> <f> <arg>*    O <opcode-name>
 ;;   M <id> <n> <param>* <rest 0|1> <m> <set-var>* <body>          lambda ids: order of first visit, 0 = global
 ;; props/C09.py appends (c09-case <n> '<form>) lines to a copy of this file.
-(import (scheme base) (scheme write) (chibi ast) (only (chibi) fixnum? identifier->symbol))
+(import (scheme base) (scheme write) (scheme eval) (chibi ast) (only (chibi) fixnum? identifier->symbol))
 
 (define (out x) (write x) (newline))
 
@@ -81,3 +81,12 @@
         (write n) (write-string " B") (dump (car res)) (newline)
         (write n) (write-string " H") (for-each emit (reverse tr))
         (emit (if (eqv? (cdr res) (+ n 1)) "prm-ok" "prm-lost")) (newline)))))
+
+;; round 3: a bare lambda expression with a rest parameter.  After the dumps, the form is compiled for real and the
+;; flags of the resulting procedure are printed: "<n> F <flags>" (bit 1 = variadic, bit 2 = SEXP_PROC_UNUSED_REST, the
+;; decision of sexp_rest_unused_p on the SIMPLIFIED lambda, vm.c:719).  The model (Rest.rest_unused on dump B) must agree.
+(define (c09-flag n form)
+  (c09-case n form)
+  (guard (e (#t (write n) (write-string " F error") (newline)))
+    (let ((p (eval form (environment '(scheme base)))))
+      (write n) (write-string " F ") (write (procedure-flags p)) (newline))))
